@@ -49,8 +49,10 @@ unsafe impl<L: Lockable> RawLock for RetryingLockCollection<L> {
 			return;
 		}
 
-		// these will be unlocked in case of a panic
+		// these will be unlocked in case of a panic: every lock with an index
+		// below `locked`, and `first_index` while `first_locked` is set
 		let first_index = Cell::new(0);
+		let first_locked = Cell::new(false);
 		let locked = Cell::new(0);
 		handle_unwind(
 			|| unsafe {
@@ -59,9 +61,11 @@ unsafe impl<L: Lockable> RawLock for RetryingLockCollection<L> {
 					// the same lock to be unlocked
 					// safety: we have the thread key
 					locks[first_index.get()].raw_write();
+					first_locked.set(true);
 					for (i, lock) in locks.iter().enumerate() {
 						if i == first_index.get() {
 							// we've already locked this one
+							locked.set(i + 1);
 							continue;
 						}
 
@@ -71,19 +75,25 @@ unsafe impl<L: Lockable> RawLock for RetryingLockCollection<L> {
 						// immediately after, causing a panic
 						// safety: we have the thread key
 						if lock.raw_try_write() {
-							locked.set(locked.get() + 1);
+							locked.set(i + 1);
 						} else {
+							// everything below `i` is released by the next call, so
+							// the unwind handler must not release it again
+							locked.set(0);
+							if first_index.get() < i {
+								first_locked.set(false);
+							}
+
 							// safety: we already locked all of these
 							attempt_to_recover_writes_from_panic(&locks[0..i]);
-							if first_index.get() >= i {
+							if first_locked.get() {
+								first_locked.set(false);
 								// safety: this is already locked and can't be
 								//         unlocked by the previous loop
 								locks[first_index.get()].raw_unlock_write();
 							}
 
 							// nothing is locked anymore
-							locked.set(0);
-
 							// call lock on this to prevent a spin loop
 							first_index.set(i);
 							continue 'outer;
@@ -95,10 +105,11 @@ unsafe impl<L: Lockable> RawLock for RetryingLockCollection<L> {
 				}
 			},
 			|| {
-				utils::attempt_to_recover_writes_from_panic(&locks[0..locked.get()]);
-				if first_index.get() >= locked.get() {
-					locks[first_index.get()].raw_unlock_write();
+				let mut held = locks[0..locked.get()].to_vec();
+				if first_locked.get() && first_index.get() >= locked.get() {
+					held.push(locks[first_index.get()]);
 				}
+				utils::attempt_to_recover_writes_from_panic(&held);
 			},
 		)
 	}
@@ -150,33 +161,44 @@ unsafe impl<L: Lockable> RawLock for RetryingLockCollection<L> {
 			return;
 		}
 
+		// these will be unlocked in case of a panic: every lock with an index
+		// below `locked`, and `first_index` while `first_locked` is set
 		let locked = Cell::new(0);
 		let first_index = Cell::new(0);
+		let first_locked = Cell::new(false);
 		handle_unwind(
 			|| 'outer: loop {
 				// safety: we have the thread key
 				locks[first_index.get()].raw_read();
+				first_locked.set(true);
 				for (i, lock) in locks.iter().enumerate() {
 					if i == first_index.get() {
+						locked.set(i + 1);
 						continue;
 					}
 
 					// safety: we have the thread key
 					if lock.raw_try_read() {
-						locked.set(locked.get() + 1);
+						locked.set(i + 1);
 					} else {
+						// everything below `i` is released by the next call, so the
+						// unwind handler must not release it again
+						locked.set(0);
+						if first_index.get() < i {
+							first_locked.set(false);
+						}
+
 						// safety: we already locked all of these
 						attempt_to_recover_reads_from_panic(&locks[0..i]);
 
-						if first_index.get() >= i {
+						if first_locked.get() {
+							first_locked.set(false);
 							// safety: this is already locked and can't be unlocked
 							//         by the previous loop
 							locks[first_index.get()].raw_unlock_read();
 						}
 
 						// these are no longer locked
-						locked.set(0);
-
 						// don't go into a spin loop, wait for this one to lock
 						first_index.set(i);
 						continue 'outer;
@@ -187,10 +209,11 @@ unsafe impl<L: Lockable> RawLock for RetryingLockCollection<L> {
 				break;
 			},
 			|| {
-				utils::attempt_to_recover_reads_from_panic(&locks[0..locked.get()]);
-				if first_index.get() >= locked.get() {
-					locks[first_index.get()].raw_unlock_read();
+				let mut held = locks[0..locked.get()].to_vec();
+				if first_locked.get() && first_index.get() >= locked.get() {
+					held.push(locks[first_index.get()]);
 				}
+				utils::attempt_to_recover_reads_from_panic(&held);
 			},
 		)
 	}
